@@ -3,9 +3,16 @@
   Extends Mpir/Model/CxxIo.lean (same namespace) with
     `floatSpec`, `specScanF`, `specF`   the grammar `operator>> (istream &, mpf_ptr)` (cxx/ismpf.cc) implements, as a
                                         specification of `scanF` / `extractF`
+    `ReadsBack`                         the condition of the round-trip theorems
+    `mpfPieces`, `emitPieces`, `doprntMpfG`  = printf/doprntf.c `__gmp_doprnt_mpf` in every base, on the bit-exact
+                                        `MpfStr.get_str` (mpf/get_str.c), with the exponent formats of osfuns.cc
+                                        ("@%c%02d" on a hex stream, "e%c%02d" / "E%c%02d" otherwise)
+    `insertFG`                          = osmpf.cc `operator<< (ostream &, mpf_srcptr)` for every basefield setting
+    `floatBody`, `specInsertF`          the closed form of what it writes
 -/
 import Mpir.Model.CxxIo
 namespace Mpir.CxxIo
+open Mpir.Printf
 
 /-! ## what `operator>> (istream &, mpf_ptr)` reads (specification side) -/
 
@@ -89,5 +96,137 @@ def specF (f : Fmt) (t : List Char) (f0 : Mpf.F) : IStream × Option Mpf.F × Bo
 def ReadsBack (fo fi : Fmt) : Prop :=
   (fi.base? = some fo.outBase ∧ ¬ (fo.showbase = true ∧ fo.hexOnly = true)) ∨
   (fi.base? = none ∧ (fo.outBase = 10 ∨ fo.showbase = true))
+
+/-! ## `operator<< (ostream &, mpf_srcptr)` in every base
+
+`Mpir.CxxIo.insertF` (part c20_cxxio) goes through `Printf.doprntMpf`, which knows decimal and the printf exponent
+formats only and takes its digits from a specification of mpf_get_str.  Here the same C (printf/doprntf.c:55-385) is
+mirrored again with the base as a parameter, on the bit-exact model of mpf_get_str. -/
+
+/-- `snprintf (exponent, sizeof exponent, p->expfmt, expsign, expval)` (doprntf.c:241-244) for the formats
+    `__gmp_doprnt_params_from_ios` chooses (osfuns.cc:52-64): "@%c%02d", "e%c%02d", "E%c%02d" — the letter, the sign,
+    the magnitude in DECIMAL (also on a hex or octal stream) with at least two digits -/
+def expTextIos (letter : Char) (expval : Int) : List Char :=
+  let ds := natDigits 10 false expval.natAbs
+  letter :: (if expval ≥ 0 then '+' else '-') :: (if ds.length < 2 then '0' :: ds else ds)
+
+/-- DIGIT_VALUE (doprntf.c:50-53) -/
+def DIGIT_VALUE (c : Char) : Nat :=
+  if isdigit c then c.toNat - 48 else if 'a' ≤ c ∧ c ≤ 'z' then c.toNat - 97 + 10 else c.toNat - 65 + 10
+
+/-- what `__gmp_doprnt_mpf` has decided when it starts to write (doprntf.c:296-336) -/
+structure Pieces where
+  sign : Option Char
+  showbase : List Char
+  s : List Char            -- the digits (after the rounding of the fixed format)
+  intlen : Int
+  intzeros : Int
+  pointlen : Int
+  fraczeros : Int
+  fraclen : Int
+  preczeros : Int
+  expStr : List Char
+  deriving Repr, DecidableEq
+
+/-- doprntf.c:150-215: the fixed format keeps `exp + prec` digits, rounding to nearest on the next one -/
+def fixedRound (base : Nat) (upper : Bool) (s : List Char) (exp prec : Int) : List Char × Int :=
+  let newlen := exp + prec                                                       -- :152
+  if newlen < 0 then ([], 0)                                                     -- :153-159
+  else if (s.length : Int) ≤ newlen then (s, exp)                                -- :160-163
+  else
+    let keep := s.take newlen.toNat                                              -- :176 len = newlen
+    let n := DIGIT_VALUE (s.getD newlen.toNat '0')                               -- :177
+    if n ≥ (base + 1) / 2 then                                                   -- :179
+      -- :181-199 propagate a carry: digits base-1 are dropped, the first other one is incremented
+      match keep.reverse.dropWhile (fun c => DIGIT_VALUE c + 1 == base) with
+      | [] => (['1'], exp + 1)                                                   -- :184-190
+      | last :: restRev => (restRev.reverse ++ [digitChar upper (DIGIT_VALUE last + 1)], exp)   -- :191-197
+    else
+      let t := (keep.reverse.dropWhile (· == '0')).reverse                       -- :203-205
+      (t, if t.isEmpty then 0 else exp)                                          -- :211-212
+
+/-- doprntf.c:73-324 -/
+def mpfPieces (p : Params) (letter : Char) (f : Mpf.F) : Pieces :=
+  let base := p.base.natAbs
+  let upper := decide (p.base < 0)
+  -- :73-114 how many digits to ask for: (prec, ndigits)
+  let pn : Int × Int :=
+    if p.prec ≤ -1 then (if p.conv = 3 then (MpfStr.maxDigits base f.prec : Int) else p.prec, 0)      -- :74-83
+    else if p.conv = 1 then                                                                           -- :87-99
+      (p.prec, max (p.prec + 2 + f.exp * ((Radix.charsPerLimb base : Int) + (if f.exp ≥ 0 then 1 else 0))) 1)
+    else if p.conv = 2 then (p.prec, p.prec + 1)                                                      -- :101-105
+    else (p.prec, max p.prec 1)                                                                       -- :111-115
+  -- :120 s = mpf_get_str (NULL, &exp, p->base, ndigits, f)
+  let g := MpfStr.get_str p.base pn.2.toNat f
+  let str := g.1.map Char.ofNat
+  let exp0 := g.2
+  -- :131-138 sign
+  let neg : Bool := str.head? = some '-'
+  let sign : Option Char := if neg then some '-' else p.sign
+  let s0 := if neg then str.tail else str
+  -- :226-243 / :249-262: (intlen, intzeros, fraczeros, fraclen, exponent text)
+  let fixedPart (s : List Char) (exp : Int) : Int × Int × Int × Int × List Char :=
+    if exp ≤ 0 then (0, 1, -exp, s.length, [])
+    else (min (s.length : Int) exp, exp - min (s.length : Int) exp, 0, s.length - min (s.length : Int) exp, [])
+  let sciPart (s : List Char) (exp : Int) : Int × Int × Int × Int × List Char :=
+    let intlen : Int := min 1 s.length
+    (intlen, if intlen = 0 then 1 else 0, 0, s.length - intlen, expTextIos letter (exp - intlen))    -- exptimes4 = 0
+  let r : List Char × Int × (Int × Int × Int × Int × List Char) :=
+    if p.conv = 1 then
+      let prec := if pn.1 ≤ -1 then max 0 ((s0.length : Int) - exp0) else pn.1                        -- :142-143
+      let fr := fixedRound base upper s0 exp0 prec                                                    -- :146-215
+      (fr.1, prec, fixedPart fr.1 fr.2)
+    else if p.conv = 2 then
+      (s0, if pn.1 ≤ -1 then max 0 ((s0.length : Int) - 1) else pn.1, sciPart s0 exp0)               -- :251-252
+    else if exp0 - 1 < -4 ∨ exp0 - 1 ≥ max 1 pn.1 then (s0, pn.1, sciPart s0 exp0)                   -- :276
+    else (s0, pn.1, fixedPart s0 exp0)
+  let s := r.1
+  let prec := r.2.1
+  let intlen := r.2.2.1
+  let intzeros := r.2.2.2.1
+  let fraczeros := r.2.2.2.2.1
+  let fraclen := r.2.2.2.2.2.1
+  let expStr := r.2.2.2.2.2.2
+  -- :288-298 trailing zeros up to the precision
+  let preczeros : Int :=
+    if p.showtrailing then max 0 (prec - (fraczeros + fraclen + (if p.conv = 3 then intlen + intzeros else 0))) else 0
+  -- :302-303 radix point
+  let pointlen : Int := if fraczeros + fraclen + preczeros ≠ 0 ∨ p.showpoint then 1 else 0
+  -- :308-328 base prefix
+  let showbase : List Char :=
+    if p.showbase = .no then []
+    else if p.showbase = .nonzero ∧ intlen = 0 ∧ fraclen = 0 then []
+    else (if p.base = 16 then ['0', 'x'] else if p.base = -16 then ['0', 'X'] else if p.base = 8 then ['0'] else [])
+  ⟨sign, showbase, s, intlen, intzeros, pointlen, fraczeros, fraclen, preczeros, expStr⟩
+
+/-- doprntf.c:333-372: the calls of the output functions (decimal point ".") -/
+def emitPieces (p : Params) (q : Pieces) : List Call :=
+  let signlen : Int := if q.sign.isSome then 1 else 0
+  let justlen : Int := p.width - (signlen + (q.showbase.length : Int) + q.intlen + q.intzeros + q.pointlen + q.fraczeros +
+    q.fraclen + q.preczeros + (q.expStr.length : Int))                                                -- :333-334
+  let justify := if justlen ≤ 0 then Justify.none else p.justify                                      -- :337-339
+  (if justify = .right then [Call.reps p.fill justlen.toNat] else []) ++                              -- :344-345
+  (match q.sign with | some c => [Call.reps c 1] | none => []) ++                                     -- :347-348
+  memoryMaybe q.showbase ++                                                                           -- :350
+  (if justify = .internal then [Call.reps p.fill justlen.toNat] else []) ++                           -- :352-353
+  [Call.memory (q.s.take q.intlen.toNat)] ++                                                          -- :355
+  repsMaybe '0' q.intzeros.toNat ++                                                                   -- :356
+  (if q.pointlen ≠ 0 then [Call.memory ['.']] else []) ++                                             -- :358
+  repsMaybe '0' q.fraczeros.toNat ++                                                                  -- :360
+  memoryMaybe ((q.s.drop q.intlen.toNat).take q.fraclen.toNat) ++                                     -- :361
+  repsMaybe '0' q.preczeros.toNat ++                                                                  -- :363
+  memoryMaybe q.expStr ++                                                                             -- :365
+  (if justify = .left then [Call.reps p.fill justlen.toNat] else [])                                  -- :367-368
+
+/-- `__gmp_doprnt_mpf (funs, data, p, ".", f)` with `p->expfmt` = letter "%c%02d" -/
+def doprntMpfG (p : Params) (letter : Char) (f : Mpf.F) : List Call := emitPieces p (mpfPieces p letter f)
+
+/-- the letter of `p->expfmt` (osfuns.cc:52-64) -/
+def expLetter (f : Fmt) : Char := if f.hexOnly then '@' else if f.uppercase then 'E' else 'e'
+
+/-- `operator<< (ostream &o, mpf_srcptr f)` (osmpf.cc:38-64) for every basefield setting -/
+def insertFG (o : OStream) (f : Mpf.F) : OStream :=
+  let po := paramsFromIos o
+  po.2.write (callsBytes (doprntMpfG po.1 (expLetter o.fmt) f))
 
 end Mpir.CxxIo
